@@ -3,7 +3,8 @@ CONSTANTS
   Readers = {"r1"}
   MaxMerges = 2
   Purge = TRUE
-  TempCacheHas = TRUE
+  TempCaches = {TRUE, FALSE}
+  WithReopen = TRUE
 VIEW view
-INVARIANTS TypeOK
+INVARIANTS TypeOK SequentialFresh
 CHECK_DEADLOCK FALSE
